@@ -14,7 +14,8 @@ from nutree import Tree
 from nutree.common import DictWrapper
 from nutree.typed_tree import TypedTree
 
-KINDS = {1: "child", 2: "k2", 3: "k3", 4: "k4"}
+# kind names: one is a substring of another on purpose (a substring test must not pass for a kind test)
+KINDS = {1: "child", 2: "cause", 3: "root_cause", 4: "k4"}
 KIND_IDS = {v: k for k, v in KINDS.items()}
 
 
